@@ -1,0 +1,79 @@
+//go:build verif
+
+package keystore
+
+// Contracts for the keystores (property C20). Comment-only.
+
+/*@
+func (s *keystore) put(ctx context.Context, keys []mh.Multihash) ([]mh.Multihash, error)
+  props C20
+  ghostvar $has bool = true
+  ghostvar $src map[int]int = any
+  ghostvar $committed bool = false
+  modifies s.size
+  ensures [distinct-new] imp(result1 == nil, all(a, 0, len(result0), all(b, a+1, len(result0), str(result0[a]) != str(result0[b]))))
+  ensures [internal-from-input] imp(result1 == nil, all(a, 0, len(result0), 0 <= $src[a] && $src[a] < len(keys) && result0[a] == keys[$src[a]]))
+  ensures [size] imp(result1 == nil, s.size == old(s.size) + len(result0))
+  ensures [size-on-error] imp(result1 != nil, s.size == old(s.size) && len(result0) == 0)
+  loop over keys invariant seen != nil && all(j, 0, len(newKeys), has(seen, str(newKeys[j])))
+  loop over keys invariant all(a, 0, len(newKeys), all(b, a+1, len(newKeys), str(newKeys[a]) != str(newKeys[b])))
+  loop over keys invariant all(a, 0, len(newKeys), 0 <= $src[a] && $src[a] < $key && newKeys[a] == keys[$src[a]])
+  loop over keys invariant s.size == old(s.size) && !$committed
+  ghost at call(Has): $has = $ret0
+  ghost at before call(Put): assert(!$has && $arg2 == h)
+  ghost at append(newKeys): $src[len(newKeys)-1] = $key; assert(!$has)
+  ghost at call(Commit): $committed = ($ret0 == nil)
+  ghost at assign(s.size): assert($committed)
+
+func (s *keystore) delete(ctx context.Context, keys []mh.Multihash) error
+  props C20
+  ghostvar $has bool = false
+  ghostvar $deletes int = 0
+  ghostvar $committed bool = false
+  modifies s.size
+  ensures [size] imp(result == nil, s.size == old(s.size) - $deletes)
+  ensures [size-on-error] imp(result != nil, s.size == old(s.size))
+  loop over keys invariant seen != nil && removedCount == $deletes && s.size == old(s.size) && !$committed
+  ghost at call(Has): $has = $ret0
+  ghost at call(Delete): $deletes = $deletes + 1; assert($has)
+  ghost at call(Commit): $committed = ($ret0 == nil)
+  ghost at assign(s.size): assert($committed)
+
+func (s *keystore) get(ctx context.Context, prefix bitstr.Key) ([]mh.Multihash, error)
+  props C20
+  ghostvar $match bool = false
+  modifies nothing
+  ghost at call(IsPrefix): $match = ($ret0 && $arg0 == prefix)
+  ghost at append(out): assert(!longPrefix || $match)
+
+func (s *keystore) countUpTo(ctx context.Context, prefix bitstr.Key, limit int) (int, error)
+  props C20
+  ghostvar $match bool = false
+  ghostvar $hits int = 0
+  modifies nothing
+  ensures [cap] imp(result1 == nil && limit > 0, result0 <= limit)
+  ensures [internal-counts-matches] imp(result1 == nil, result0 == $hits)
+  loop 0 invariant n == $hits && n >= 0 && (limit <= 0 || n < limit)
+  ghost at call(IsPrefix): $match = ($ret0 && $arg0 == prefix)
+  ghost at inc(n): $hits = $hits + 1; assert(!longPrefix || $match)
+
+func (s *keystore) containsPrefix(ctx context.Context, prefix bitstr.Key) (bool, error)
+  props C20
+  ghostvar $match bool = false
+  modifies nothing
+  ensures [internal-true-only-on-match] imp(result0, result1 == nil && (!longPrefix || $match))
+  ghost at call(IsPrefix): $match = ($ret0 && $arg0 == prefix)
+
+func (s *keystore) loadSize()
+  props C20
+  ghostvar $deleted bool = false
+  modifies s.size
+  ensures [internal-size-key-ephemeral] $deleted
+  ghost at call(Delete): $deleted = ($arg1 == sizeKey)
+
+func refreshSize(ctx context.Context, d ds.Datastore) (size int, err error)
+  props C20
+  modifies nothing
+  ensures size >= 0
+  loop 0 invariant size >= 0
+@*/
